@@ -22,9 +22,13 @@
 //	truncated  cut inside the authenticator
 //
 // - and delivered before / instead of the genuine response.  The client's
-// reaction per datagram (ok / skip / error) is read from its log records and
-// written in the record format of harness/c03 (c05rec) with ntson = true,
-// tr = "ip-nts", for spec/trace/NtpAcceptTrace.tla.
+// reaction per datagram (ok / skip / error) is decided WITHOUT its log (see
+// lane.watch: return of the measurement call, the client's next request at
+// the proxy, state of the client's socket and of the call's goroutine, the
+// hooks VerifPrev and Fetcher.VerifData) and written in the record format of
+// harness/c03 (c05rec) with ntson = true, tr = "ip-nts", for
+// spec/trace/NtpAcceptTrace.tla.  Log records with today's names are only
+// classified for an optional cross-check (field lg, strict section).
 package c05nts
 
 import (
@@ -37,15 +41,16 @@ import (
 	"crypto/x509"
 	"crypto/x509/pkix"
 	"encoding/binary"
-	"encoding/hex"
 	"encoding/json"
 	"fmt"
 	"log/slog"
 	"math/big"
 	mrand "math/rand"
 	"net"
+	"net/netip"
 	"os"
 	"strconv"
+	"strings"
 	"sync"
 	"testing"
 	"time"
@@ -61,6 +66,7 @@ import (
 	"example.com/scion-time/net/nts"
 	"example.com/scion-time/net/ntske"
 
+	"verif/harness/c03/react"
 	"verif/harness/internal/vio"
 )
 
@@ -98,6 +104,9 @@ type c05rec struct {
 	Got   string `json:"got"`  // ok | skip | error | ignored | panic
 	NtsOn bool   `json:"ntson"`
 	How   string `json:"how"` // which concrete variant of the abstract datagram was sent
+	Flt   bool   `json:"flt"` // the client had a pass-through filter
+	Lg    string `json:"lg"`  // optional: reaction class according to log records with today's names ("" = none seen)
+	Why   string `json:"why"` // diagnostics: the evidence the reaction was decided on
 }
 
 func (c *c05case) queue(t *testing.T) ([]dgram, []string) {
@@ -246,42 +255,52 @@ type logRec struct {
 
 type keData struct{ c2s, s2c []byte }
 
+// handler keeps the client's log records for the optional cross-check only
 type handler struct {
 	logs chan logRec
-	mu   sync.Mutex
-	ke   *keData
 }
 
 func (h *handler) Enabled(context.Context, slog.Level) bool { return true }
 func (h *handler) WithAttrs([]slog.Attr) slog.Handler       { return h }
 func (h *handler) WithGroup(string) slog.Handler            { return h }
 func (h *handler) Handle(_ context.Context, r slog.Record) error {
-	if r.Message == "NTS-KE data" {
-		k := &keData{}
-		r.Attrs(func(a slog.Attr) bool {
-			switch a.Key {
-			case "c2s":
-				k.c2s, _ = hex.DecodeString(a.Value.String())
-			case "s2c":
-				k.s2c, _ = hex.DecodeString(a.Value.String())
-			}
-			return true
-		})
-		h.mu.Lock()
-		h.ke = k
-		h.mu.Unlock()
-		return nil
-	}
 	select {
 	case h.logs <- logRec{r.Message}:
 	default:
 	}
 	return nil
 }
-func (h *handler) keys() *keData {
-	h.mu.Lock()
-	defer h.mu.Unlock()
-	return h.ke
+
+// callResult: what one MeasureClockOffsetIP call returned
+type callResult struct {
+	ts  time.Time
+	off time.Duration
+	err error
+}
+
+// recFilter: pass-through measurements.Filter that counts its calls (one call =
+// one accepted exchange)
+type recFilter struct {
+	mu sync.Mutex
+	n  int
+}
+
+func (f *recFilter) Do(t0, t1, t2, t3 time.Time) time.Duration {
+	f.mu.Lock()
+	f.n++
+	f.mu.Unlock()
+	return ntp.ClockOffset(t0, t1, t2, t3)
+}
+func (f *recFilter) Reset() {}
+func (f *recFilter) take() int {
+	if f == nil {
+		return 0
+	}
+	f.mu.Lock()
+	defer f.mu.Unlock()
+	n := f.n
+	f.n = 0
+	return n
 }
 
 type lane struct {
@@ -295,7 +314,13 @@ type lane struct {
 	h     *handler
 	log   *slog.Logger
 	c     *client.IPClient
-	done  chan error // result of the running MeasureClockOffsetIP call, nil when none
+	flt   *recFilter      // the client's pass-through filter (odd lanes; nil: none)
+	done  chan callResult // result of the running MeasureClockOffsetIP call, nil when none
+	last  callResult      // result of the last call that returned
+	root  int64           // goroutine of the running call
+	ddl   time.Time       // the running call's deadline is not before this instant
+	stash []byte          // a request taken off the proxy socket while a reaction was being watched
+	sfrom *net.UDPAddr
 	rng   *mrand.Rand
 	// a client that turns down the server's genuine responses makes every call run
 	// into its deadline: after three such calls in a row the lane goes on with short
@@ -358,6 +383,10 @@ func newLane(t *testing.T, idx int, cert tls.Certificate, seed int64) *lane {
 
 func (l *lane) newClient() {
 	c := &client.IPClient{Log: l.log, InterleavedMode: true}
+	if l.idx%2 == 1 {
+		l.flt = &recFilter{}
+		c.Filter = l.flt
+	}
 	c.Auth.Enabled = true
 	c.Auth.NTSKEFetcher.TLSConfig = tls.Config{
 		InsecureSkipVerify: true,
@@ -373,34 +402,50 @@ func (l *lane) startCall() {
 	if l.done != nil {
 		l.t.Fatalf("lane %d: call still running", l.idx)
 	}
-	done := make(chan error, 1)
+	done := make(chan callResult, 1)
 	l.done = done
+	started := make(chan int64, 1)
+	dl := 3 * time.Second
+	if l.fast {
+		dl = 150 * time.Millisecond
+	}
+	l.ddl = time.Now().Add(dl)
 	go func() {
+		started <- react.GoID()
 		defer func() {
 			if x := recover(); x != nil {
-				select {
-				case l.h.logs <- logRec{"client panic"}:
-				default:
-				}
-				done <- fmt.Errorf("panic: %v", x)
+				done <- callResult{err: fmt.Errorf("PANIC: %v", x)}
 			}
 		}()
-		dl := 3 * time.Second
-		if l.fast {
-			dl = 150 * time.Millisecond
-		}
 		ctx, cancel := context.WithTimeout(context.Background(), dl)
 		defer cancel()
 		laddr := &net.UDPAddr{IP: l.ip}
 		raddr := &net.UDPAddr{IP: l.ip, Port: proxyPort}
-		_, _, err := client.MeasureClockOffsetIP(ctx, l.log, l.c, laddr, raddr)
-		done <- err
+		ts, off, err := client.MeasureClockOffsetIP(ctx, l.log, l.c, laddr, raddr)
+		done <- callResult{ts, off, err}
 	}()
+	l.root = <-started
+}
+
+// returned notes that the running call has ended with r.
+func (l *lane) returned(r callResult) {
+	l.done, l.last, l.stash = nil, r, nil
+	if r.err != nil {
+		if l.failed++; l.failed >= 3 {
+			l.fast = true
+		}
+	} else {
+		l.failed = 0
+	}
 }
 
 // nextRequest waits for a request datagram of the running call; ok = false when
 // the call ended instead.
 func (l *lane) nextRequest(buf []byte) (req []byte, from *net.UDPAddr, ok bool) {
+	if l.stash != nil {
+		req, from, l.stash = l.stash, l.sfrom, nil
+		return req, from, true
+	}
 	for {
 		l.proxy.SetReadDeadline(time.Now().Add(2 * time.Millisecond))
 		n, a, err := l.proxy.ReadFromUDP(buf)
@@ -408,15 +453,8 @@ func (l *lane) nextRequest(buf []byte) (req []byte, from *net.UDPAddr, ok bool) 
 			return bytes.Clone(buf[:n]), a, true
 		}
 		select {
-		case err := <-l.done:
-			l.done = nil
-			if err != nil {
-				if l.failed++; l.failed >= 3 {
-					l.fast = true
-				}
-			} else {
-				l.failed = 0
-			}
+		case r := <-l.done:
+			l.returned(r)
 			// a datagram may still sit in the socket: it belongs to an attempt that is over
 			return nil, nil, false
 		default:
@@ -463,38 +501,170 @@ func (l *lane) drainLogs() {
 	}
 }
 
-// awaitReaction: what the client did with the datagram just delivered (same
-// decision table as harness/c03 awaitReaction).
-func (l *lane) awaitReaction() string {
-	deadline := time.After(150 * time.Millisecond)
+// logClass: what log records with the names known today say about the datagram
+// just delivered (optional cross-check; "" when none of them was seen).
+func (l *lane) logClass() string {
+	eval, fail, skip := false, false, false
 	for {
 		select {
 		case lr := <-l.h.logs:
 			switch lr.msg {
 			case "evaluated response":
-				return "ok"
+				eval = true
+			case "failed to measure clock offset":
+				fail = true
 			case "received packet with unexpected type or structure", "received packet from unexpected source",
 				"failed to decode packet payload", "failed to decode NTS packet", "failed to process NTS packet":
-				select {
-				case lr2 := <-l.h.logs:
-					if lr2.msg == "failed to measure clock offset" {
-						return "error"
-					}
-					if lr2.msg == "client panic" {
-						return "panic"
-					}
-				case <-time.After(3 * time.Millisecond):
-				}
-				return "skip"
-			case "failed to measure clock offset":
-				return "error"
-			case "client panic":
-				return "panic"
+				skip = true
 			}
-		case <-deadline:
-			return "ignored"
+			continue
+		default:
+		}
+		break
+	}
+	switch {
+	case eval:
+		return "ok"
+	case fail:
+		return "error"
+	case skip:
+		return "skip"
+	}
+	return ""
+}
+
+const slack = 200 * time.Microsecond // kernel timestamps vs time.Now(): same clock, different reading points
+
+// watch hands a datagram to the client's socket at dst (send) and decides from
+// causal evidence - never from the log - what the client did with it:
+//
+//	the call returned                       -> attempt over
+//	the client's next request at the proxy  -> attempt over
+//	the socket at dst is gone               -> attempt over (one of the two above follows)
+//	the socket has been read empty, is still there and the goroutine of the call is
+//	parked in network I/O again             -> skip (it keeps waiting on the same socket)
+//
+// An attempt that is over reported a measurement (ok) iff the call returned one
+// time-stamped within the delivery window of this datagram, or the client's filter
+// was called, or its interleaved state (hook VerifPrev) took a receive time within
+// that window; otherwise it ended with an error.
+func (l *lane) watch(dst *net.UDPAddr, send func() error) (got, lg, why string) {
+	if l.done == nil {
+		send()
+		return "ignored", "", "nocall"
+	}
+	ap := netip.AddrPortFrom(netip.AddrFrom4([4]byte(dst.IP.To4())), uint16(dst.Port))
+	pap := netip.AddrPortFrom(netip.AddrFrom4([4]byte(l.ip.To4())), proxyPort)
+	parked := func() (bool, bool) { return react.Goroutines().Parked(l.root) }
+	// let the call park first (it has then read its transmit timestamp): stable receive accounting
+	for t0 := time.Now(); time.Since(t0) < 30*time.Millisecond; time.Sleep(100 * time.Microsecond) {
+		if p, present := parked(); p || !present {
+			break
 		}
 	}
+	st, err := react.UDPSure(ap)
+	if err != nil {
+		l.t.Fatal(err)
+	}
+	before := st[0]
+	select {
+	case r := <-l.done: // the call returned while the harness was getting ready (its deadline)
+		l.returned(r)
+		send()
+		return "ignored", "", "nocall"
+	default:
+	}
+	l.flt.take()
+	l.logClass()
+	del := time.Now()
+	if err := send(); err != nil {
+		l.t.Fatal(err)
+	}
+	if !before.Open {
+		return "ignored", "", "closed"
+	}
+	start := time.Now()
+	final := false
+	var emptySince, unreadSince time.Time
+	sleep := 30 * time.Microsecond
+	buf := make([]byte, 4096)
+loop:
+	for {
+		select {
+		case r := <-l.done:
+			l.returned(r)
+			final = true
+			break loop
+		default:
+		}
+		tRead := time.Now() // (a reading of /proc/net/udp can take long when the host has many sockets)
+		st, err := react.UDP(ap, pap)
+		if err != nil {
+			l.t.Fatal(err)
+		}
+		if st[1].RxQ > 0 {
+			// the client's next request: the attempt is over
+			l.proxy.SetReadDeadline(time.Now().Add(50 * time.Millisecond))
+			if n, a, err := l.proxy.ReadFromUDP(buf); err == nil {
+				l.stash, l.sfrom = bytes.Clone(buf[:n]), a
+				break loop
+			}
+		}
+		switch {
+		case !st[0].Open || st[0].Inode != before.Inode:
+			// gone, or not listed in this reading (no conclusion): the end of the attempt
+			// shows as the client's next request or as the return of the call
+		case st[0].RxQ > before.RxQ:
+			// still in the socket: "ignored" only if seen so in readings that BEGAN 300 ms apart
+			emptySince = time.Time{}
+			if unreadSince.IsZero() {
+				unreadSince = time.Now()
+			} else if tRead.Sub(unreadSince) > 300*time.Millisecond && len(l.done) == 0 {
+				return "ignored", l.logClass(), fmt.Sprintf("unread rxq %d > %d", st[0].RxQ, before.RxQ)
+			}
+		default:
+			unreadSince = time.Time{}
+			if emptySince.IsZero() {
+				emptySince = time.Now()
+			}
+			p, present := parked()
+			if present && (p || time.Since(emptySince) > 40*time.Millisecond) {
+				st2, err := react.UDP(ap, pap)
+				if err != nil {
+					l.t.Fatal(err)
+				}
+				if len(l.done) == 0 && st2[1].RxQ == 0 && st2[0].Open && st2[0].Inode == before.Inode && st2[0].RxQ <= before.RxQ {
+					return "skip", l.logClass(), fmt.Sprintf("parked=%v %v", p, time.Since(start).Round(time.Microsecond))
+				}
+			}
+		}
+		if time.Since(start) > 6*time.Second {
+			l.t.Fatalf("lane %d: no evidence of what the client did with a datagram for %v", l.idx, time.Since(start))
+		}
+		time.Sleep(sleep)
+		if sleep < 500*time.Microsecond {
+			sleep += sleep / 2
+		}
+	}
+	seen := time.Now()
+	lg = l.logClass()
+	in := func(x time.Time) bool { return !x.Before(del.Add(-slack)) && !x.After(seen.Add(slack)) }
+	if final && l.last.err != nil && strings.HasPrefix(l.last.err.Error(), "PANIC") {
+		return "panic", lg, ""
+	}
+	pv := l.c.VerifPrev()
+	nf := l.flt.take()
+	byRet := final && l.last.err == nil && !l.last.ts.IsZero() && in(l.last.ts)
+	byPrev := pv.Reference != "" && pv.CRxTime != (ntp.Time64{}) && in(ntp.TimeFromTime64(pv.CRxTime, seen))
+	why = fmt.Sprintf("final=%v flt=%d ret=%v prev=%v %v", final, nf, byRet, byPrev, seen.Sub(del).Round(time.Microsecond))
+	if nf > 0 || byRet || byPrev {
+		return "ok", lg, why
+	}
+	if final && !seen.Before(l.ddl) {
+		// returned without a measurement at or after its deadline: datagram or deadline, cannot be told
+		return "ignored", lg, "deadline " + why
+	}
+	return "error", lg, why
 }
 
 func (l *lane) mint(k *keData, n int) [][]byte {
@@ -617,9 +787,12 @@ func (l *lane) runCase(c *c05case, out *vio.Out, stale *ntp.Time64) (nok int, il
 	if reqb == nil {
 		l.t.Fatalf("lane %d: client sent no request in 4 calls", l.idx)
 	}
-	k := l.h.keys()
-	if k == nil {
-		l.t.Fatalf("lane %d: no NTS-KE data record logged", l.idx)
+	// the keys of the association the request was built with (hook; the client is
+	// blocked reading its socket now, nothing writes the fetcher's data)
+	kd := l.c.Auth.NTSKEFetcher.VerifData()
+	k := &keData{c2s: kd.C2sKey, s2c: kd.S2cKey}
+	if len(k.c2s) == 0 || len(k.s2c) == 0 {
+		l.t.Fatalf("lane %d: the client's key exchange data hold no keys", l.idx)
 	}
 	var req ntp.Packet
 	if err := ntp.DecodePacket(&req, reqb); err != nil {
@@ -641,14 +814,13 @@ func (l *lane) runCase(c *c05case, out *vio.Out, stale *ntp.Time64) (nok int, il
 			break
 		}
 		b, how := l.concretise(d, g, &req, il, *stale, k, uid, ncookies)
-		l.drainLogs()
+		sock := l.proxy
 		if d.Src == "other" {
-			l.other.WriteToUDP(b, from)
-		} else if _, err := l.proxy.WriteToUDP(b, from); err != nil {
-			l.t.Fatal(err)
+			sock = l.other
 		}
-		got := l.awaitReaction()
-		out.Emit(c05rec{Ev: "dgram", Case: c.Idx, Pos: pos, Il: il, Tr: "ip-nts", D: d, Want: want[pos], Got: got, NtsOn: true, How: how})
+		got, lg, why := l.watch(from, func() error { _, err := sock.WriteToUDP(b, from); return err })
+		out.Emit(c05rec{Ev: "dgram", Case: c.Idx, Pos: pos, Il: il, Tr: "ip-nts", D: d, Want: want[pos], Got: got, NtsOn: true, How: how,
+			Flt: l.flt != nil, Lg: lg, Why: why})
 		if got == "ok" {
 			nok++
 		}
